@@ -5,7 +5,7 @@ From WTF Require Import Model.Validate Model.Text Model.Engine Model.Recovery Ch
 Import ListNotations.
 Open Scope string_scope.
 
-Record reccase := { y_db : list rentry; y_qlc : bytes; y_err : bool; y_panic : bool; y_res : list eres }.
+Record reccase := { y_db : list rentry; y_qlc : bytes; y_err : bool; y_panic : bool; y_res : list eres; y_res_recased : list eres }.
 
 Fixpoint nodup_z (l : list Z) : bool := match l with [] => true | x :: r => negb (existsb (Z.eqb x) r) && nodup_z r end.
 Fixpoint non_incr (l : list float) : bool :=
@@ -33,3 +33,9 @@ Definition check_case (c : reccase) : report :=
                                 | _ => ["nothing"] end) |}.
 
 Definition check_cases (l : list reccase) : list string := render (map check_case l).
+
+(* C20's view of the same runs: the recovery search gives the same answer to a re-cased spelling of the query *)
+Definition check_recased (c : reccase) : report :=
+  {| r_verdict := if results_eqb (y_res c) (y_res_recased c) then VOk else VPredFail "recovery_case_invariant";
+     r_trivial := match y_res c with [] => true | _ => false end; r_tags := ["recovery-recased"] |}.
+Definition check_recased_cases (l : list reccase) : list string := render (map check_recased l).
